@@ -181,6 +181,16 @@ fn float_renderings(f: f64) -> Vec<String> {
     if !e.contains("e-") {
         v.push(e.replace('e', "e+"));
     }
+    // leading dot / trailing dot combined with an exponent of either sign: d.ddde x = .dddd e(x+1) = dddd. e(x-#d)
+    if let Some((mant, exp)) = e.split_once('e') {
+        if let Ok(x) = exp.parse::<i64>() {
+            let digits: String = mant.chars().filter(|c| *c != '.').collect();
+            let sign = |k: i64| if k < 0 { format!("e-{}", -k) } else { format!("e+{}", k) };
+            v.push(format!(".{}{}", digits, sign(x + 1)));
+            v.push(format!("{}.{}", digits, sign(x + 1 - digits.len() as i64)));
+            v.push(format!(".{}E{}", digits, x + 1).replace("E-", "E-"));
+        }
+    }
     let fixed = format!("{}", f);
     if fixed.contains('.') {
         v.push(fixed.clone());
@@ -200,7 +210,7 @@ impl Property for C06 {
     }
     fn rule(&self) -> String {
         "string bodies (all bodies up to a length bound over {a, \", \\, /, *, space, newline, ä, emoji, +} and random Unicode), quoted with \\ and \" escaped, alone and embedded between tokens: must tokenize to exactly that text; \
-         other escapes / missing quote: must fail; integers (boundaries, random, leading zeros, hex in both cases): exact; finite non-negative doubles (edge pool + random bit patterns) in up to 8 renderings, alone and glued between operator neighbours: bit-exact; \
+         other escapes / missing quote: must fail; integers (boundaries, random, leading zeros, hex in both cases): exact; finite non-negative doubles (edge pool + random bit patterns) in up to 11 renderings (shortest, `e`, `E`, `e+`, fixed, leading / trailing dot with and without a signed exponent), alone and glued between operator neighbours: bit-exact; \
          every word up to a length bound over {0,1,x,e,E,.,a,f,n,i,_}: classified by the literal grammar of the statement. non-trivial = not a plain identifier; distinct = distinct source text"
             .into()
     }
